@@ -112,3 +112,26 @@ def run_all(ctx, props, faults=1):
         "chunk boundaries of the inputs are computed by the harness's independent gear-hash reference (gearref); pool blocks are 'first chunk of random data', so any chunk-id sequence is realisable as bytes",
         "the store is LocalClient wrapped by an observing client; failures are injected at put / upload_shard",
     ]
+
+
+def run_decisions(ctx, props, label="dd"):
+    """A small upload plan whose deduper decision events are validated (C05: every dedup answer used or rejected by the
+    pipeline - session shard, shard cache, the file's own pending xorb - is truthful)."""
+    thorough = ctx.tier == "thorough"
+    vlib.build_harness()
+    w = vlib.workdir(ctx.pid.lower() + "_up")
+    k = 5 if thorough else 1
+    plan = [("A", "random", 30 * k, {}), ("B", "random", 10 * k, {}), ("C", "random", 12 * k, {}), ("D", "natural", 8 * k, {}),
+            ("U", "random", 12 * k, {"gd": 1, "users": 3})]
+    counts = {}
+    for i, (cfg, mode, n, extra) in enumerate(plan):
+        t = os.path.join(w, "%s_%s_%s_%d.ndjson" % (label, cfg, mode, i))
+        r = vlib.xv("upload", env=CONFIGS[cfg], mode=mode, n=n, seed=ctx.seed + 1000 + 100 * i, faults=0, out=t, **extra)
+        for kk, v in r["counts"].items():
+            counts[kk] = counts.get(kk, 0) + v
+        validate(ctx, t, "%s-%s-%s" % (label, cfg, mode), props)
+    ctx.notes["decision_event_counts"] = {k2: v for k2, v in counts.items() if k2.startswith("Dd")}
+    need = ["DdDecision:dedup", "DdDecision:dedup:local", "DdDecision:prevented", "DdCut"]
+    missing = [n for n in need if counts.get(n, 0) == 0]
+    if missing:
+        raise vlib.ToolError("vacuity: deduper branches never exercised: %s" % missing)
